@@ -347,13 +347,14 @@ def _decide(b, q, hints, unwind_cap=300):
     """Run CBMC for one query; automatically raise per-loop unwinding bounds that are too small (never reports
     success with a failed unwinding assertion)."""
     unwindset = dict(hints.get(q.name, {})); unwindset.update(q.unwindset)
-    t0 = time.time(); attempts = 0; peak = 0
+    t0 = time.time(); attempts = 0; peak = 0; capmul = 1
     total = {'symex_s': 0.0, 'solver_s': 0.0}
     while True:
         attempts += 1
         left = q.timeout - (time.time() - t0)
         if left <= 5: return dict(verdict='inconclusive', reason='timeout', wall=time.time() - t0, attempts=attempts, unwindset=unwindset)
-        r = run(['/usr/bin/time', '-f', 'VF_RSS %M'] + cbmc_cmd(b, q, unwindset), timeout=left, mem_gb=max(2.5 * q.mem_gb, 8))   # address-space cap well above the expected RSS used for scheduling
+        cap = max(2.5 * q.mem_gb, 8) * capmul      # address-space cap well above the expected RSS used for scheduling
+        r = run(['/usr/bin/time', '-f', 'VF_RSS %M'] + cbmc_cmd(b, q, unwindset), timeout=left, mem_gb=cap)
         m = re.search(r'VF_RSS (\d+)', r['err'])
         if m: peak = max(peak, int(m.group(1)) // 1024)
         if r['timeout']: return dict(verdict='inconclusive', reason='timeout', wall=time.time() - t0, attempts=attempts, unwindset=unwindset, rss_mb=peak)
@@ -362,6 +363,11 @@ def _decide(b, q, hints, unwind_cap=300):
         if results is None:
             reason = 'out of memory' if ('bad_alloc' in r['err'] or 'Out of memory' in r['out'] or r['rc'] in (-9, 137, -6, 134)) else 'cbmc error rc=%s: %s' % (r['rc'], (tail or r['err'])[-600:])
             return dict(verdict='inconclusive', reason=reason, wall=time.time() - t0, attempts=attempts, unwindset=unwindset, rss_mb=peak)
+        if any(p['status'] == 'ERROR' for p in results) or 'ran out of memory' in r['out']:
+            # the SAT back end hit the address-space cap: retry once with twice the cap, then give up (inconclusive, never success)
+            if capmul == 1 and cap * 2 <= BUDGET.total:
+                capmul = 2; continue
+            return dict(verdict='inconclusive', reason='solver out of memory under a %.0f GB cap' % cap, wall=time.time() - t0, attempts=attempts, unwindset=unwindset, rss_mb=peak)
         raised = False
         for p in results:
             if p['status'] == 'FAILURE':
@@ -370,7 +376,7 @@ def _decide(b, q, hints, unwind_cap=300):
                     lp = loop_of(p['property'])
                     cur = unwindset.get(lp, q.unwind)
                     if lp and cur < unwind_cap:
-                        unwindset[lp] = min(unwind_cap, max(cur * 2, cur + 8)); raised = True
+                        unwindset[lp] = min(unwind_cap, max(cur + cur // 2, cur + 4)); raised = True   # x1.5: over-unwinding is what costs memory
         if raised: continue
         stats.update(total)
         return dict(verdict='decided', results=results, stats=stats, wall=time.time() - t0, attempts=attempts, unwindset=unwindset, rss_mb=peak)
